@@ -98,6 +98,24 @@ def trailing (w : Nat) (d : Bits) : Bits := d.drop (w * (d.length / w))
 /-- SPEC: the decoded items. -/
 def items {V} (c : Codec V) (d : Bits) : List V := (chunks c.w d).map c.dec
 
+/-- The hypotheses on a codec under which the theorems hold: what `enc` produces has the dtype's bit length and
+    decodes back to the value (true of every registered fixed-length dtype for the values it accepts). -/
+structure Codec.WF {V} (c : Codec V) : Prop where
+  len_enc : ∀ v b, c.enc v = .ok b → b.length = c.w
+  dec_enc : ∀ v b, c.enc v = .ok b → c.dec b = v
+
+/-- Every item pattern is the encoding of its own decoded value (ints, hex/bin/oct, bytes, bits, bool — not the
+    floats, whose NaN payloads decode to one value). -/
+def Codec.Canonical {V} (c : Codec V) : Prop := ∀ b : Bits, b.length = c.w → c.enc (c.dec b) = .ok b
+
+/-- An Array object: dtype and data. -/
+structure Arr (V : Type) where
+  c : Codec V
+  d : Bits
+
+/-- `a.dtype = new` (array_.py:149-169): only `_dtype` is replaced. -/
+def Arr.setDtype {V} (a : Arr V) (c2 : Codec V) : Arr V := ⟨c2, a.d⟩
+
 /-! ## ALG: `BitArray` primitives by their list-of-bits meaning -/
 
 /-- `d[a:b]` (bitarray slicing = Python slicing, C01). -/
@@ -133,6 +151,12 @@ def bInsert (d bs : Bits) (pos : Int) : Except Err Bits :=
 structure Step (α : Type) where
   data : Bits
   res : Except Err α
+
+/-- What the list model sees of a mutating call: the returned value and the items afterwards, or the exception. -/
+def Step.view {V α} (c : Codec V) (s : Step α) : Except Err (α × List V) :=
+  match s.res with
+  | .ok x => .ok (x, items c s.data)
+  | .error e => .error e
 
 /-! ## ALG: `Array` methods (array_.py) -/
 
@@ -475,6 +499,84 @@ def betweenArrays (c1 c2 cr : Codec V) (f : V → V → Except Err V) (d1 d2 : B
 
 end
 
+/-! ## Histories: the operations of the property as data, the Array step (ALG) and the list step (SPEC) -/
+
+inductive Op (V : Type) where
+  | len | get (i : Int) | getSlice (s e st : Option Int) | set (i : Int) (v : V)
+  | setSlice (s e st : Option Int) (vals : List V) | del (i : Int) | delSlice (s e st : Option Int)
+  | append (v : V) | extend (vals : List V) | insert (i : Int) (v : V) | pop (i : Int) | reverse
+  | count (v : V) | iter | tolist
+
+/-- What one step lets the caller see. A returned Array (slice) is seen through its `tolist()`. -/
+inductive Obs (V : Type) where
+  | none | nat (n : Nat) | val (v : V) | list (l : List V)
+
+def unitObs {V} (s : Step Unit) : Step (Obs V) :=
+  ⟨s.data, match s.res with | .ok _ => .ok .none | .error e => .error e⟩
+
+/-- ALG: one operation on the Array's data. -/
+def arrStep {V} (c : Codec V) (vo : ValOps V) : Op V → Bits → Step (Obs V)
+  | .len, d => ⟨d, .ok (.nat (len c d))⟩
+  | .get i, d => ⟨d, match getItem c d i with | .ok v => .ok (.val v) | .error e => .error e⟩
+  | .getSlice s e st, d =>
+    ⟨d, match getSlice c d s e st with
+        | .error e => .error e
+        | .ok r => match tolist c r with | .ok l => .ok (.list l) | .error e => .error e⟩
+  | .set i v, d => unitObs (setItem c d i v)
+  | .setSlice s e st vals, d => unitObs (setSlice c d s e st vals)
+  | .del i, d => unitObs (delItem c d i)
+  | .delSlice s e st, d => unitObs (delSlice c d s e st)
+  | .append v, d => unitObs (append c d v)
+  | .extend vals, d => unitObs (extendIter c d vals)
+  | .insert i v, d => unitObs (insert c d i v)
+  | .pop i, d => let r := pop c d i; ⟨r.data, match r.res with | .ok v => .ok (.val v) | .error e => .error e⟩
+  | .reverse, d => unitObs (reverse c d)
+  | .count v, d => ⟨d, match count c vo d v with | .ok n => .ok (.nat n) | .error e => .error e⟩
+  | .iter, d => ⟨d, match iter c d with | .ok l => .ok (.list l) | .error e => .error e⟩
+  | .tolist, d => ⟨d, match tolist c d with | .ok l => .ok (.list l) | .error e => .error e⟩
+
+/-- "The value fits the dtype". -/
+def fits {V} (c : Codec V) (v : V) : Bool := match c.enc v with | .ok _ => true | .error _ => false
+
+/-- The state of the list model: a Python list and the trailing bits. -/
+structure LState (V : Type) where
+  l : List V
+  t : Bits
+
+def lmut {V} (s : LState V) (r : Except Err (List V)) : LState V × Except Err (Obs V) :=
+  match r with
+  | .ok l' => (⟨l', s.t⟩, .ok .none)
+  | .error e => (s, .error e)
+
+/-- SPEC: the same operation on a Python list; the trailing bits never change; a value that does not fit raises
+    and changes nothing; appending / extending / reversing need an empty `trailing_bits` (doc/array.rst). -/
+def listStep {V} (c : Codec V) (vo : ValOps V) : Op V → LState V → LState V × Except Err (Obs V)
+  | .len, s => (s, .ok (.nat s.l.length))
+  | .get i, s => (s, match Py.getIndex s.l i with | .ok v => .ok (.val v) | .error e => .error e)
+  | .getSlice a b st, s => (s, match Py.getSlice s.l a b st with | .ok r => .ok (.list r) | .error e => .error e)
+  | .set i v, s => if fits c v then lmut s (PyL.setIndex s.l i v) else (s, .error .value)
+  | .setSlice a b st vals, s => if vals.all (fits c) then lmut s (PyL.setSlice s.l a b st vals) else (s, .error .value)
+  | .del i, s => lmut s (PyL.delIndex s.l i)
+  | .delSlice a b st, s => lmut s (PyL.delSlice s.l a b st)
+  | .append v, s => if s.t ≠ [] then (s, .error .value) else if fits c v then (⟨s.l ++ [v], s.t⟩, .ok .none) else (s, .error .value)
+  | .extend vals, s => if s.t ≠ [] then (s, .error .value) else
+      if vals.all (fits c) then (⟨s.l ++ vals, s.t⟩, .ok .none) else (s, .error .value)
+  | .insert i v, s => if fits c v then (⟨PyL.insert s.l i v, s.t⟩, .ok .none) else (s, .error .value)
+  | .pop i, s => match PyL.pop s.l i with
+      | .ok (x, l') => (⟨l', s.t⟩, .ok (.val x))
+      | .error e => (s, .error e)
+  | .reverse, s => if s.t ≠ [] then (s, .error .value) else (⟨s.l.reverse, s.t⟩, .ok .none)
+  | .count v, s => (s, .ok (.nat (s.l.countP fun i => vo.eq i v)))
+  | .iter, s => (s, .ok (.list s.l))
+  | .tolist, s => (s, .ok (.list s.l))
+
+/-- Same return value, or both raise (the property names no exception classes). -/
+def sameOutcome {α} (a b : Except Err α) : Prop :=
+  match a, b with
+  | .ok x, .ok y => x = y
+  | .error _, .error _ => True
+  | _, _ => False
+
 /-! ### regions of the known findings (same names in harness/props/C14.py REGIONS) -/
 
 /-- `bytesN` dtypes: `dtype.length` counts bytes, the code uses it as a bit count. -/
@@ -499,6 +601,37 @@ def extend_array_itemsize (other : Option (String × Nat)) (native : Nat) : Bool
   match other with
   | some (_, l) => l != native
   | none => false
+
+/-- Operations on which the property fixes the behaviour and the pinned tree is not known to deviate: outside the
+    `insert_negative` and `count_nonnumeric` regions; for multi-value mutators every value fits (otherwise the
+    property does not say how much was stored before the exception). -/
+def admissible {V} (c : Codec V) (vo : ValOps V) (d : Bits) : Op V → Bool
+  | .insert i _ => !insert_negative c d i
+  | .count v => match vo.isnan v with | .ok false => true | _ => false
+  | .setSlice _ _ _ vals => vals.all (fits c)
+  | .extend vals => vals.all (fits c)
+  | _ => true
+
+/-- Run a history on the Array (ALG). -/
+def arrRun {V} (c : Codec V) (vo : ValOps V) : List (Op V) → Bits → Bits × List (Except Err (Obs V))
+  | [], d => (d, [])
+  | op :: ops, d =>
+    let r := arrStep c vo op d
+    let rest := arrRun c vo ops r.data
+    (rest.1, r.res :: rest.2)
+
+/-- Run the same history on the list model (SPEC). -/
+def listRun {V} (c : Codec V) (vo : ValOps V) : List (Op V) → LState V → LState V × List (Except Err (Obs V))
+  | [], s => (s, [])
+  | op :: ops, s =>
+    let r := listStep c vo op s
+    let rest := listRun c vo ops r.1
+    (rest.1, r.2 :: rest.2)
+
+/-- Every operation of the history is admissible in the state in which it runs. -/
+def Admissible {V} (c : Codec V) (vo : ValOps V) : List (Op V) → Bits → Prop
+  | [], _ => True
+  | op :: ops, d => admissible c vo d op = true ∧ Admissible c vo ops (arrStep c vo op d).data
 
 /-! ### type promotion -/
 
@@ -672,9 +805,7 @@ def initOfStr? (s : String) : Option (Init Val) :=
 
 /-- One step of a history. `none` = malformed. The Bool says "stop here" (a multi-value mutator failed: the
     property does not fix the state it leaves, so it is not observed). -/
-structure St where
-  c : Codec Val
-  d : Bits
+abbrev St := Arr Val
 
 def arrTok (c : Codec Val) (r : Except Err Bits) : String :=
   match r with
@@ -754,7 +885,7 @@ def stepOp (s : St) (f : List String) : Option (String × St × Bool) :=
       | .ok d2 => some ("b:" ++ (if equals c d c2 d2 then "1" else "0"), s, false)
       | .error _ => none
     | _, _, _ => none
-  | ["dtype", dt] => (codecOfStr? dt).map fun c2 => ("-", ⟨c2, d⟩, false)
+  | ["dtype", dt] => (codecOfStr? dt).map fun c2 => ("-", s.setDtype c2, false)
   | ["astype", dt] => (codecOfStr? dt).map fun c2 => (arrTok c2 (astype c d c2), s, false)
   | ["bswap"] => mut1 (byteswap c d)
   | ["tobytes"] => some ("x:" ++ bitsToWire (tobytes d), s, false)
